@@ -1,9 +1,18 @@
 use std::{env, fs, path::Path};
 
 fn main() {
-    let cat = mc_desc::catalogue::build(mc_desc::catalogue::Tier::Quick);
-    let src = mc_desc::emit::emit_catalogue(&cat);
+    // VERIF_CAT_REDUCED=1: the reduced catalogue (see mc_desc::catalogue::build_reduced); the choice
+    // is baked into the crate (`REDUCED`) so that the binary describes exactly what was compiled
+    let reduced = env::var("VERIF_CAT_REDUCED").map(|v| v == "1").unwrap_or(false);
+    let cat = if reduced {
+        mc_desc::catalogue::build_reduced(mc_desc::catalogue::Tier::Quick)
+    } else {
+        mc_desc::catalogue::build(mc_desc::catalogue::Tier::Quick)
+    };
+    let mut src = mc_desc::emit::emit_catalogue(&cat);
+    src.push_str(&format!("\npub const REDUCED: bool = {reduced};\n"));
     let out = Path::new(&env::var("OUT_DIR").unwrap()).join("cat.rs");
     fs::write(out, src).unwrap();
     println!("cargo:rerun-if-changed=build.rs");
+    println!("cargo:rerun-if-env-changed=VERIF_CAT_REDUCED");
 }
